@@ -300,6 +300,11 @@ def analyse(res, asm, r):
             sec = [s for s in spans if not s.get('is_primary')]
             lab = None
             for s in sec:
+                fname = str(s.get('file_name', ''))
+                if not fname.endswith('/%s.rs' % unit) and fname != '%s.rs' % unit:
+                    # the failed precondition belongs to a function specified by vstd (unwrap / expect / index / slice / ...)
+                    lab = 'vstd:%s:%s' % (fname, s.get('line_start'))
+                    continue
                 t2, o2 = line_origin(gen, s['line_start'])
                 cfn = fn_at(asm, s['line_start'])
                 if cfn and o2[0] == 'tpl':
@@ -475,7 +480,7 @@ def main():
         results = list(ex.map(lambda u: run_unit(u, tier, relock, tuple(known_ids)), unit_dirs))
         results += [f.result() for f in fk]
 
-    obligations, failures, undecided = [], [], []
+    obligations, failures, undecided, foreign = [], [], [], []
     also = tuple(cfg.get('also_counts', []))   # labels of another property's contracts that carry this property too
 
     def mine(label):
@@ -490,6 +495,8 @@ def main():
             if mine(f['obligation'].split('::')[-1]):
                 f['unit'] = r['unit']
                 failures.append(f)
+            else:
+                foreign.append(f['obligation'])
         for u in r['undecided']:
             undecided.append('%s: %s' % (r['unit'], u))
     new_fail = [f for f in failures if f['obligation'] not in known_ids]
@@ -598,7 +605,8 @@ def main():
         print('UNDECIDED property=%s reason=%s' % (prop, undecided[0][:200].replace('\n', ' ')))
         return 2
     if n_obl == 0 or n_dis != n_obl:
-        print('UNDECIDED property=%s reason=obligations=%d discharged=%d' % (prop, n_obl, n_dis))
+        print('UNDECIDED property=%s reason=obligations=%d discharged=%d%s' % (prop, n_obl, n_dis,
+              (' (an obligation labelled for another property failed in the same function and leaves this property\'s obligations there unverified: %s)' % ', '.join(foreign[:3])) if foreign else ''))
         return 2
     print('OK property=%s obligations=%d discharged=%d units=%s wall=%.1fs' % (prop, n_obl, n_dis, ','.join(r['unit'] for r in results), time.time() - t0))
     return 0
